@@ -168,7 +168,7 @@ REG.contract(
 
 ASSUMES = ["A-PY", "A-INST", "A-ID", "A-DJ"]
 NOT_COVERED = [
-    "Component._render_impl / component_post_render (registries component_context_cache, component_renderer_cache, render_context layers on error) are not yet under contract: F-C06a/b of DESIGN section 5 are not decided by this check",
+    "Component._render_impl / component_post_render are not under contract: what a failed render leaves in the module-level registries, the caller's Context and its render_context is covered only by the BOUNDED stand-in bounded#failed_render_leaves_nothing_behind (72 scenarios, never counted as proved), which is where the known finding F-C06a comes from",
     "reachability after gc / memory growth is a heap-liveness notion, not expressible (DESIGN section 4)",
 ]
 
@@ -211,3 +211,12 @@ def _replay_wm(model, ob):
             "expected": f"stack depth {before}", "observed": f"stack depth {after}"}
 
 import contracts.c06b  # noqa: E402,F401  (_prepare_template / _maybe_bind_template: Context layers restored, shared with C03)
+
+
+def _bounded_failed_render(tier, repo):
+    from harness.bounded_failed_render import run
+    return run(repo)
+
+
+REG.bounded_check("bounded#failed_render_leaves_nothing_behind", P, _bounded_failed_render,
+                  note="Component._render_impl / component_post_render are not under contract: a user callback raises at every site of a render (5 sites x 3 positions x provide x 2 modes); registries, Context layers and render_context depth must be as before.  Known finding F-C06a delimits what IS left behind today (component_context_cache entries, one render_context layer); anything else is a violation")
